@@ -129,6 +129,25 @@ func Gen(seed uint64, profile string) *Scenario {
 			}
 			sc.Archives[0].Entries = append(pre, sc.Archives[0].Entries...)
 		}
+		if rr := simkit.NewRNG(seed, "uw/root-link"); sc.Dst == "/w/dst" && rr.Chance(1, 12) {
+			// the destination does not exist yet, and the archive has an entry that is not a
+			// directory under a name that means the destination itself
+			sc.DstMissing = true
+			if rr.Chance(2, 3) {
+				if len(sc.Allow) == 0 || rr.Chance(1, 2) {
+					sc.Allow = []string{"/w/ext"}
+				}
+				pre := []Entry{
+					{Name: simkit.Pick(rr, []string{".", "./", "/", "x/..", "./."}), Type: "sym", Mode: 0o777, Sec: 1000000000, Link: simkit.Pick(rr, []string{"/w/ext/dir", "/w/ext", "../ext/dir", "../victim", "/w/victim"})},
+					{Name: "f", Type: "reg", Mode: 0o644, Sec: 1000000001, Body: "PWN-root;"},
+					{Name: "./", Type: "dir", Mode: 0o700, Sec: 1000000002},
+				}
+				if rr.Chance(1, 4) {
+					pre[0].Type, pre[0].Link, pre[0].Body, pre[0].Mode = "reg", "", "PWN-dst;", 0o644
+				}
+				sc.Archives[0].Entries = append(pre, sc.Archives[0].Entries...)
+			}
+		}
 		// later calls of the same process: another destination, or the same one emptied by the caller
 		for i := 1; i < len(sc.Archives); i++ {
 			hr := simkit.NewRNG(seed, "uw/seq"+string(rune('0'+i)))
